@@ -235,6 +235,12 @@ def f5(tier):
                 ('for', 'i', ('range', L(1), L(n)), [('decl', 'fi', 'Fn', ('call', 'mk', [V('i')])), ('assign', 'tot', B('+', V('tot'), ('call', 'fi', [V('i')])))]),
                 P(V('tot'))]
         cases.append(('MI', body))
+    return cases
+
+
+def f5r(tier):
+    """recursion through local functions (kept apart: with no inlining limit, -Q9, the compiler does not finish on some of these)"""
+    cases = []
     # recursion through local functions, mutual recursion
     body = [('fn', 'fact', [('n', 'I')], 'I', [('exit', B('<', V('n'), L(2)), L(1)), ('value', B('*', V('n'), ('call', 'fact', [B('-', V('n'), L(1))])))]),
             P(('call', 'fact', [L(10)])), P(('call', 'fact', [L(0)]))]
@@ -243,6 +249,12 @@ def f5(tier):
     body = [('fn', 'ev', [('n', 'I')], 'Bool', [('exit', B('=', V('n'), L(0)), L(True)), ('value', ('call', 'od', [B('-', V('n'), L(1))]))]),
             ('fn', 'od', [('n', 'I')], 'Bool', [('exit', B('=', V('n'), L(0)), L(False)), ('value', ('call', 'ev', [B('-', V('n'), L(1))]))]),
             PB(('call', 'ev', [L(10)])), PB(('call', 'od', [L(7)])), PB(('call', 'ev', [L(3)]))]
+    cases.append(('MI', body))
+    body = [('fn', 'tri', [('k', 'I')], 'I', [('exit', B('<', V('k'), L(1)), L(0)), ('value', B('+', V('k'), ('call', 'tri', [B('-', V('k'), L(1))])))]),
+            ('decl', 'oz', 'AI', ('anew', L(1), L(0))), P(('call', 'tri', [B('+', L(12), ('aget', V('oz'), L(0)))]))]
+    cases.append(('MI', body))
+    body = [('fn', 'fib', [('k', 'I')], 'I', [('exit', B('<', V('k'), L(2)), V('k')), ('value', B('+', ('call', 'fib', [B('-', V('k'), L(1))]), ('call', 'fib', [B('-', V('k'), L(2))])))]),
+            P(('call', 'fib', [L(12)]))]
     cases.append(('MI', body))
     return cases
 
@@ -390,9 +402,10 @@ def f7_endings():
 def f10(tier):
     C = []
     x, y, n, s = V('x'), V('y'), V('n'), V('s')
-    opq = ('fn', 'opq', [('v', 'I'), ('d', 'I')], 'I', [('exit', B('=', V('d'), L(0)), V('v')), ('value', ('call', 'opq', [V('v'), B('-', V('d'), L(1))]))])
-    O = lambda v: ('call', 'opq', [L(v), V('one')])
-    base = [opq, ('decl', 'one', 'I', L(1))]
+    # opaque run-time values: read back from an array cell (a recursive identity function made -Q9 inline for ever:
+    # see DESIGN.md, C02 notes)
+    O = lambda v: B('+', L(v), ('aget', V('oz'), L(0)))
+    base = [('decl', 'oz', 'AI', ('anew', L(1), L(0))), ('decl', 'one', 'I', B('+', L(1), ('aget', V('oz'), L(0))))]
     # cse: expression, operand redefined in between, expression again
     for op in ('+', '*', '-'):
         C.append(base + [('decl', 'x', 'I', O(3)), ('decl', 'y', 'I', O(4)), P(B(op, x, y)), ('assign', 'x', B('+', x, L(1))), P(B(op, x, y)),
@@ -461,17 +474,33 @@ def f10(tier):
                                                        ('value', ('call', 'l3', [L(1000)]))]), ('value', ('call', 'l2', [L(100)]))]),
                      P(('call', 'l1', [L(10)])), P(('call', 'l1', [L(10)])), P(V('a'))])
     # inline: recursive, mutually recursive, multi-exit functions, function with free variable
-    C.append(base + [('fn', 'fib', [('k', 'I')], 'I', [('exit', B('<', V('k'), L(2)), V('k')), ('value', B('+', ('call', 'fib', [B('-', V('k'), L(1))]), ('call', 'fib', [B('-', V('k'), L(2))])))]), P(('call', 'fib', [O(12)]))])
+    # (recursion on a non-constant argument is left out: -Q9 sets no inlining limit and the compiler does not finish on it)
     C.append(base + [('fn', 'me', [('k', 'I')], 'I', [('exit', B('<', V('k'), L(0)), L(-1)), ('exit', B('=', V('k'), L(0)), L(0)), ('if', B('>', V('k'), L(100)), [('return', L(100))], None), ('value', B('+', V('k'), L(1)))]),
                      P(('call', 'me', [O(-5)])), P(('call', 'me', [O(0)])), P(('call', 'me', [O(500)])), P(('call', 'me', [O(7)]))])
     C.append(base + [('decl', 'fv', 'I', O(3)), ('fn', 'usefv', [('k', 'I')], 'I', [('assign', 'fv', B('+', V('fv'), V('k'))), ('value', B('*', V('fv'), L(2)))]),
                      P(('call', 'usefv', [L(1)])), P(('call', 'usefv', [L(1)])), P(V('fv'))])
     # generators are always inlined: nested consumption with side effects
     C.append(base + [('decl', 's', 'I', L(0)), ('for', 'i', ('range', L(1), O(3)), [('for', 'j', ('range', V('i'), L(3)), [('assign', 's', B('+', B('*', s, L(2)), V('j')))])]), P(s)])
-    return [('MI', c) for c in C]
+    # drop the opaque-value helper where a case does not use it (a dead local function next to a live one is a
+    # construct of its own: see f10_dead_lexicals)
+    out = []
+    for c in C:
+        rest = c[2:]
+        if "'oz'" not in repr(rest) and "'one'" not in repr(rest):
+            c = rest
+        out.append(('MI', c))
+    out += f10_dead_lexicals()
+    return out
 
 
-FAMILIES = {'F1': f1, 'F3': f3, 'F4': f4, 'F5': f5, 'F6': f6, 'F7': f7, 'F10': f10}
+def f10_dead_lexicals():
+    """a function whose own lexical variables are all dead, containing a live local function"""
+    opq = ('fn', 'opq', [('v', 'I'), ('d', 'I')], 'I', [('exit', B('=', V('d'), L(0)), V('v')), ('value', B('-', V('d'), L(1)))])
+    loud = ('fn', 'loud', [('v', 'I')], 'I', [('value', V('v'))])
+    return [('MI', [opq, ('decl', 'one', 'I', L(1)), loud, PB(B('<', ('call', 'loud', [L(2)]), ('call', 'loud', [L(2)])))])]
+
+
+FAMILIES = {'F1': f1, 'F3': f3, 'F4': f4, 'F5': f5, 'F5R': f5r, 'F6': f6, 'F7': f7, 'F10': f10}
 
 
 def all_cases(tier, which=None):
@@ -484,3 +513,155 @@ def all_cases(tier, which=None):
             if in_subset(c):
                 out.append((name, c))
     return out
+
+
+# ------------------------------------------------------------------------------------------ template families
+def raw(text, lines):
+    return ('RAW', text, ['K@K@:%s' % l for l in lines])
+
+
+def f2(tier):
+    """literal forms the scanner knows (integers of both widths, radix, strings with escapes)"""
+    C = []
+    ints = [('0', 0), ('007', 7), ('2r1010', 10), ('8r777', 511), ('16rFF', 255), ('16r7FFFFFFF', 2147483647), ('36rZZ', 1295),
+            ('10r123', 123), ('9223372036854775807', (1 << 63) - 1), ('2147483648', 1 << 31), ('4294967296', 1 << 32), ('16r100000000', 1 << 32)]
+    body = ''.join('\tpIMI("K@K@:", %s);\n' % t for t, _ in ints)
+    C.append(raw('c@K@(): () == {\n\timport from MachineInteger;\n%s}\n' % body, [str(v) for _, v in ints]))
+    big = [('18446744073709551616', 1 << 64), ('16rFFFFFFFFFFFFFFFFFFFF', (1 << 80) - 1), ('2r' + '1' * 70, (1 << 70) - 1),
+           ('100000000000000000000000000000000000000', 10 ** 38), ('36rALDORCOMPILER', int('ALDORCOMPILER', 36)), ('0', 0), ('9' * 60, int('9' * 60))]
+    body = ''.join('\tpIBI("K@K@:", %s);\n' % t for t, _ in big)
+    C.append(raw('c@K@(): () == {\n\timport from Integer;\n%s}\n' % body, [str(v) for _, v in big]))
+    strs = [('abc', 'abc'), ('a_"b', 'a"b'), ('a__b', 'a_b'), ('', ''), ('x y  z', 'x y  z'), ('-- not a comment', '-- not a comment'), ('#include', '#include'),
+            ('{;}', '{;}'), ('a_\nb', 'ab')]
+    body = ''.join('\tpS("K@K@:", "%s");\n' % t for t, _ in strs)
+    C.append(raw('c@K@(): () == {\n%s}\n' % body, [v for _, v in strs]))
+    return C
+
+
+def f8(tier):
+    """overloading by argument and by result type, macros"""
+    C = []
+    defs = '''ov@K@(x: MachineInteger): String == "mi";
+ov@K@(x: Integer): String == "bi";
+ov@K@(x: String): String == "st";
+ov@K@(x: Boolean): String == "bo";
+ov@K@(x: MachineInteger, y: MachineInteger): String == "mimi";
+ov@K@(x: String, y: MachineInteger): String == "stmi";
+rr@K@(): MachineInteger == { import from MachineInteger; 41 };
+rr@K@(): String == "rs";
+rr@K@(): Boolean == true;
+tk@K@(x: MachineInteger): MachineInteger == { import from MachineInteger; x + 1 };
+tk@K@(x: String): MachineInteger == { import from MachineInteger; 100 };
+'''
+    uses = [('ov@K@(3)', 'S', 'mi'), ('ov@K@("x")', 'S', 'st'), ('ov@K@(true)', 'S', 'bo'), ('ov@K@(3, 4)', 'S', 'mimi'), ('ov@K@("a", 4)', 'S', 'stmi'),
+            ('rr@K@()@String', 'S', 'rs'), ('rr@K@()@MachineInteger', 'IMI', '41'), ('rr@K@()@Boolean', 'L', 'T'),
+            ('tk@K@(rr@K@())', 'IMI', None), ('ov@K@(rr@K@()@MachineInteger)', 'S', 'mi'), ('ov@K@(rr@K@()@String)', 'S', 'st'),
+            ('tk@K@(tk@K@("q"))', 'IMI', '101'), ('ov@K@(tk@K@(5), tk@K@("z"))', 'S', 'mimi')]
+    uses = [u for u in uses if u[2] is not None]
+    # every non-empty prefix-closed selection would be 2^n; the family takes every single use and every adjacent pair
+    sel = [[u] for u in uses] + [[uses[i], uses[j]] for i in range(len(uses)) for j in range(len(uses)) if i != j and (tier == 'thorough' or j == i + 1)]
+    for us in sel:
+        body = ''.join('\tp%s("K@K@:", %s);\n' % (t, e) for e, t, _ in us)
+        C.append(raw(defs + 'c@K@(): () == {\n\timport from MachineInteger;\n%s}\n' % body, [v for _, _, v in us]))
+    # declared-type context
+    C.append(raw(defs + 'c@K@(): () == {\n\timport from MachineInteger;\n\ta: String := rr@K@();\n\tb: MachineInteger := rr@K@();\n\tpS("K@K@:", a);\n\tpIMI("K@K@:", b + 1);\n}\n', ['rs', '42']))
+    # macros
+    mac = '''mz@K@ ==> 7;
+mc@K@(a) ==> (a + a);
+md@K@(a, b) ==> (mc@K@(a) * b);
+'''
+    muses = [('mz@K@', 7), ('mc@K@(3)', 6), ('md@K@(2, 5)', 20), ('mc@K@(mz@K@)', 14), ('md@K@(mz@K@, mc@K@(1))', 28), ('mc@K@(mc@K@(1))', 4)]
+    for n in (1, 2):
+        for us in itertools.permutations(muses, n) if tier == 'thorough' else [m for m in itertools.combinations(muses, n)]:
+            body = ''.join('\tpIMI("K@K@:", %s);\n' % e for e, _ in us)
+            C.append(raw(mac + 'c@K@(): () == {\n\timport from MachineInteger;\n%s}\n' % body, [str(v) for _, v in us]))
+    # macro parameter shadowing a local name, macro using a local
+    C.append(raw('mq@K@(x) ==> (x * y);\nc@K@(): () == {\n\timport from MachineInteger;\n\ty: MachineInteger := 3;\n\tx: MachineInteger := 100;\n\tpIMI("K@K@:", mq@K@(5));\n\tpIMI("K@K@:", mq@K@(y));\n}\n', ['15', '9']))
+    return C
+
+
+def f9(tier):
+    """categories with defaults (overridden or not), parametrised domains, Rep/per/rep, conditional exports"""
+    C = []
+    for ndef in (0, 1, 2):                 # how many of the two default operations the domain overrides
+        for rept in ('MachineInteger', 'Record(v: MachineInteger)'):
+            if rept.startswith('Record'):
+                mk, val, imp = 'per [n]', '(rep x).v', 'import from Rep;'
+            else:
+                mk, val, imp = 'per n', 'rep x', 'import from Rep;'
+            over = ''
+            if ndef >= 1:
+                over += '\ttwice(x: %): MachineInteger == 3 * val x;\n'
+            if ndef >= 2:
+                over += '\tshow(x: %): MachineInteger == 1000 + val x;\n'
+            text = '''define VCat@K@: Category == with {
+	mk: MachineInteger -> %%;
+	val: %% -> MachineInteger;
+	twice: %% -> MachineInteger;
+	show: %% -> MachineInteger;
+	default {
+		twice(x: %%): MachineInteger == { import from MachineInteger; 2 * val x };
+		show(x: %%): MachineInteger == { import from MachineInteger; twice x + 1 };
+	}
+}
+VDom@K@: VCat@K@ == add {
+	Rep == %s;
+	%s
+	import from MachineInteger;
+	mk(n: MachineInteger): %% == %s;
+	val(x: %%): MachineInteger == %s;
+%s}
+VPar@K@(T: VCat@K@): with { run: MachineInteger -> MachineInteger; both: MachineInteger -> MachineInteger } == add {
+	import from T, MachineInteger;
+	run(n: MachineInteger): MachineInteger == twice(mk n) + val(mk n);
+	both(n: MachineInteger): MachineInteger == show(mk n);
+}
+c@K@(): () == {
+	import from MachineInteger;
+	import from VDom@K@;
+	pIMI("K@K@:", twice(mk 5));
+	pIMI("K@K@:", show(mk 5));
+	import from VPar@K@(VDom@K@);
+	pIMI("K@K@:", run 7);
+	pIMI("K@K@:", both 7);
+}
+''' % (rept, imp, mk, val, over)
+            tw = (lambda v: 3 * v) if ndef >= 1 else (lambda v: 2 * v)
+            sh = (lambda v: 1000 + v) if ndef >= 2 else (lambda v: tw(v) + 1)
+            C.append(raw(text, [str(tw(5)), str(sh(5)), str(tw(7) + 7), str(sh(7))]))
+    # conditional export on `T has C`, instantiated with a type that has it and one that has not
+    text = '''define VHas@K@: Category == with { bonus: () -> MachineInteger };
+VYes@K@: VHas@K@ == add { bonus(): MachineInteger == { import from MachineInteger; 70 } };
+VNo@K@: with { plain: () -> MachineInteger } == add { plain(): MachineInteger == { import from MachineInteger; 1 } };
+VCond@K@(T: with): with { base: () -> MachineInteger; if T has VHas@K@ then extra: () -> MachineInteger } == add {
+	import from MachineInteger;
+	base(): MachineInteger == if T has VHas@K@ then 10 else 20;
+	if T has VHas@K@ then { extra(): MachineInteger == bonus()$T + 1 }
+}
+c@K@(): () == {
+	import from MachineInteger;
+	pIMI("K@K@:", base()$VCond@K@(VYes@K@));
+	pIMI("K@K@:", extra()$VCond@K@(VYes@K@));
+	pIMI("K@K@:", base()$VCond@K@(VNo@K@));
+}
+'''
+    C.append(raw(text, ['10', '71', '20']))
+    # the same parametrised domain instantiated twice keeps separate state; domain-level constant initialised once
+    text = '''VCnt@K@(T: with): with { next: () -> MachineInteger } == add {
+	import from MachineInteger;
+	n: MachineInteger := 0;
+	next(): MachineInteger == { free n; n := n + 1; n }
+}
+c@K@(): () == {
+	import from MachineInteger;
+	pIMI("K@K@:", next()$VCnt@K@(String));
+	pIMI("K@K@:", next()$VCnt@K@(String));
+	pIMI("K@K@:", next()$VCnt@K@(Boolean));
+	pIMI("K@K@:", next()$VCnt@K@(String));
+}
+'''
+    C.append(raw(text, ['1', '2', '1', '3']))
+    return C
+
+
+FAMILIES.update({'F2': f2, 'F8': f8, 'F9': f9})
